@@ -24,6 +24,7 @@ func init() {
 			ruleLookahead(c, r, "")
 			ruleOpMargin(c, r, "")
 			ruleRawCopy(c, r, "")
+			ruleCopyNCE(c, r, "")
 			ruleEncAvail(c, r, "")
 			ruleWriter2Split(c, r, "")
 			ruleDefaultChunkType(c, r, t, "")
